@@ -203,6 +203,48 @@ def step (line : String) : String :=
         let m := countsOf parts (lbRun ⟨[]⟩ parts (List.replicate total sz))
         answer m (impl == m)
       | _, _, _ => "bad-op"
+    | ["hashconc", _variant, _n, _g, _per] =>
+      -- concurrent callers sharing one key-hashing balancer: the balancers are pure functions of key and count, so every
+      -- answer equals the sequential one (Props/C13 §10: the hasher is used exclusively)
+      answer "mismatch=0 panics=0" (impl == "mismatch=0 panics=0")
+    | ["woffer", bal, k, found, code, n, decoy] =>
+      match ofHex k, found.toNat?, code.toInt?, n.toNat?, decoy.toNat? with
+      | some kb, some found, some code, some n, some decoy =>
+        let resp : List MetaTopic := (if decoy == 1 then [⟨"decoy", 0, 7⟩] else []) ++ (if found == 1 then [⟨"t", code, n⟩] else [])
+        let na := bal == "default"
+        let offS (l : Option (List Int)) : String := if na then "n/a" else match l with
+          | none => "-"
+          | some l => if l.isEmpty then "-" else ",".intercalate (l.map toString)
+        -- the model's answer
+        let m : String := match writerOffer none resp "t" with
+          | .error e => s!"err:{e} offered={offS none}"
+          | .ok l =>
+            let r : Option Int := match bal with
+              | "rr" | "default" => ((⟨0, 0⟩ : RoundRobin).balance l).2
+              | "lb" => ((⟨[]⟩ : LeastBytes).balance (kb.length + 1) l).2
+              | "hash" => (hashBalance ⟨0, 0⟩ (some kb) l).2
+              | "refhash" => refHashBalance Gen.refHashMask 0 (some kb) l
+              | "crc32" => crc32Balance false 0 (some kb) l
+              | "murmur2" => murmur2Balance c false 0 (some kb) l
+              | _ => none
+            match r with
+            | some p => s!"part:{p} offered={offS (some l)}"
+            | none => s!"panic offered={offS (some l)}"
+        -- the property, from Spec only: an error code of the topic's entry (or 3 when it is missing) is returned and no
+        -- list is offered; otherwise [0..n) is offered and the message lands on the reference partition
+        let want : String :=
+          if found != 1 then s!"err:3 offered={offS none}"
+          else if code != 0 then s!"err:{code} offered={offS none}"
+          else
+            let p : Int := match bal with
+              | "hash" => Spec.saramaHash (fnv1a32 kb).toNat n
+              | "refhash" => Int.ofNat (Spec.saramaRefHash (fnv1a32 kb).toNat n)
+              | "crc32" => Int.ofNat (Spec.rdkafkaConsistent (crc32IEEE kb).toNat n)
+              | "murmur2" => Int.ofNat (Spec.javaPartition (Spec.murmur2 kb).toNat n)
+              | _ => 0
+            s!"part:{p} offered={offS (some (iota n))}"
+        answer m (impl == want && (code != 0 || found != 1 || n > 0))
+      | _, _, _, _, _ => "bad-op"
     | _ => "bad-op"
   | _ => "bad-op"
 
